@@ -36,6 +36,22 @@ partial def pRest {α} (p : P α) : P (List α) := do
 
 def verdict (b : Bool) : String := if b then "pass" else "fail"
 
+/-- body of the `bquery` op (shared with `bqueryk`, whose four leading ints — chunk window and collection bounds —
+    do not enter the expected answer: membership is decided on chromosome coordinates) -/
+def bqBody : Op := do
+      let cw ← pBool; let qs ← pInt; let qe ← pInt
+      let kids ← pList (do let _k ← tok; pList pIntPair)
+      pArrow
+      let ans ← pRest tok
+      let want := (List.range kids.length).filter (fun i =>
+        match kids[i]? with
+        | some (m :: ms) =>
+          let cs := ms.foldl (fun a x => min a x.1) m.1
+          let ce := ms.foldl (fun a x => max a x.2) m.2
+          if cw then decide (qs ≤ cs ∧ ce ≤ qe ∧ cs < ce) else decide (cs < qe ∧ qs < ce ∧ cs < ce)
+        | _ => false)
+      pure (verdict (ans == "ok" :: want.map toString))
+
 def ops : List (String × Op) := [
   ("bins", do
       let s ← pInt; let e ← pInt; let off ← pOff; let one ← pBool; pArrow
@@ -58,18 +74,7 @@ def ops : List (String × Op) := [
       | ["ok", "one", n] => pure (verdict (n.toInt? == some (expectBin s e 0)))
       | _ => pure "fail"),
   -- position query, brute force: a child is returned iff its span lies within (strict) / overlaps (relaxed) the range
-  ("bquery", do
-      let cw ← pBool; let qs ← pInt; let qe ← pInt
-      let kids ← pList (do let _k ← tok; pList pIntPair)
-      pArrow
-      let ans ← pRest tok
-      let want := (List.range kids.length).filter (fun i =>
-        match kids[i]? with
-        | some (m :: ms) =>
-          let cs := ms.foldl (fun a x => min a x.1) m.1
-          let ce := ms.foldl (fun a x => max a x.2) m.2
-          if cw then decide (qs ≤ cs ∧ ce ≤ qe ∧ cs < ce) else decide (cs < qe ∧ qs < ce ∧ cs < ce)
-        | _ => false)
-      pure (verdict (ans == "ok" :: want.map toString)))
+  ("bquery", bqBody),
+  ("bqueryk", do let _ ← pInt; let _ ← pInt; let _ ← pInt; let _ ← pInt; bqBody)
 ]
 end BioCantor.Driver.SpecBins
